@@ -21,7 +21,7 @@ OUT_FAULTS = ["otime_minus1", "otime_neg"]
 
 def plan(tier, seed, scale):
     q = tier == "quick"
-    return {"n_cases": int((160 if q else 4000) * scale), "profiles": ["core", "flat", "events", "chain", "data_flat"],
+    return {"n_cases": int((160 if q else 16000) * scale), "profiles": ["core", "flat", "events", "chain", "data_flat"],
             "max_steps": 4 if q else 8, "timeout_s": 900 if q else 10800}
 
 
